@@ -213,7 +213,7 @@ def instances(tier):
         for form in forms:
             out.append(Instance("C10", "c10:u_table", dict(kind=kind, form=form), cover=["evaluated"], weight=10 if "t2" in form else 1,
                                 **({"time_limit": 3000} if tier == "thorough" else {})))
-        for form in (["t2x2x2"] if tier == "quick" else ["t2x2x2", "t2x3x2", "t2x3x3"]):
+        for form in (["t2x2x2", "t2x3x2"] if tier == "quick" else ["t2x2x2", "t2x3x2", "t2x2x3", "t2x3x3"]):
             out.append(Instance("C10", "c10:u_table", dict(kind=kind, form=form, light=True), name="c10:u_table/UF-light/%s/%s" % (kind, form),
                                 uf=True, cover=["evaluated"], weight=10))
         for form in ("t1x2", "ct2x2x2"):
